@@ -191,7 +191,7 @@ def oracle(case):
     return out
 
 
-NULLTOK = st.sampled_from(["-999.25", "-999.2500", "-9.9925E2"])
+NULLTOK = st.sampled_from(["-999.25", "-999.2500", "-9.9925E2", "-999.2510", "-999.2501", "-999.24", "-999.25001"])  # NULL and near-NULL
 
 
 @st.composite
